@@ -23,7 +23,8 @@ def main():
                 res = {"text": mammoth.read_embedded_style_map(io.BytesIO(bytes.fromhex(req["docx"])))}
             else:
                 data = bytes.fromhex(req["docx"])
-                kw = {"style_map": req["text"]} if req["mode"] == "explicit" else {}
+                kw = {"style_map": req["text"]} if req["mode"] in ("explicit", "both") else {}
+                kw.update(req.get("kw") or {})       # further keyword arguments of convert_to_html, by their Python names
                 r = mammoth.convert_to_html(io.BytesIO(data), **kw)
                 res = {"value": r.value, "messages": [m.message for m in r.messages]}
         except RecursionError:
